@@ -6,7 +6,7 @@ ID = "C18"
 CRATE = "c18"
 COQ_DIR = "C18"
 COQ_DEPS = []
-PROFILES = ["debug"]
+PROFILES = ["debug", "release"]
 CORR_IMPORT = "From Coq Require Import Floats.SpecFloat Uint63.\nFrom RlibV Require Import C18.Model C18.Corr.\nOpen Scope Z_scope.\nOpen Scope uint63_scope."
 CASE_TYPE = "case"
 AUDIT_IMPORT = ("From Coq Require Import ZArith Reals Bool List Floats.SpecFloat.\n"
